@@ -201,9 +201,29 @@ pub struct Scn {
     poller: bool,
     explicit_flush: bool,
     exit_gates: bool,
+    /// whether the cached read-only instance has served requests (warm cache) before the schedule starts
+    prime: bool,
 }
 
 impl Scn {
+    /// cold cached read-only instance + change poller + responses in flight: the poller's flush racing
+    /// with requests that still have to go to the database
+    fn cold(rng: &mut Rng) -> Self {
+        let mut s = Scn::random(rng, Some((Inst::RoCached, 6)));
+        let ls = labels3();
+        let second = match rng.below(3) {
+            0 => ROp::Lookup(rng.pick(&ls).clone()),
+            1 => ROp::History(rng.pick(&ls).clone(), HistoryParams::Complete),
+            _ => ROp::EpochHash,
+        };
+        let first = if rng.chance(2, 3) { ROp::EpochHash } else { ROp::Lookup(rng.pick(&ls).clone()) };
+        s.readers = vec![(Inst::RoCached, vec![first, second, ROp::EpochHash])];
+        s.poller = true;
+        s.explicit_flush = false;
+        s.exit_gates = true;
+        s.prime = false;
+        s
+    }
     fn random(rng: &mut Rng, single_op: Option<(Inst, usize)>) -> Self {
         let mut counter = 0u64;
         // prefix publishes all three labels so that readers have something to ask for
@@ -249,12 +269,13 @@ impl Scn {
             poller: has_ro_cached && rng.chance(1, 2),
             explicit_flush: has_ro_cached && rng.chance(1, 6),
             exit_gates: rng.chance(1, 3),
+            prime: rng.chance(3, 4),
         }
     }
     fn json(&self) -> Value {
         json!({"cfg": self.cfg.name(), "writer_cache": self.writer_cache.name(), "prefix": history_json(&self.prefix), "writes": history_json(&self.writes),
                "readers": self.readers.iter().map(|(i, ops)| json!({"instance": i.name(), "ops": ops.iter().map(|o| format!("{o:?}")).collect::<Vec<_>>()})).collect::<Vec<_>>(),
-               "poller": self.poller, "explicit_flush": self.explicit_flush, "exit_gates": self.exit_gates})
+               "poller": self.poller, "explicit_flush": self.explicit_flush, "exit_gates": self.exit_gates, "ro_cache_warm": self.prime})
     }
 }
 
@@ -307,6 +328,22 @@ pub fn run(ctx: &Ctx) -> i32 {
             l.count("random_schedules", 1);
         }
     });
+    // ---- cold cached reader + poller + responses in flight
+    let n_cold = ctx.tier.pick(64, 600);
+    par_cases(ctx, &mon, "cold", n_cold, |cc, rng, l| {
+        let scn = Scn::cold(rng);
+        for i in 0..ctx.tier.pick(40, 100) {
+            if i % 2 == 0 {
+                let mut r2 = Rng::derive(cc.idx, "c13-cold", i);
+                let mut st = RandomStrategy(&mut r2);
+                with_cfg!(scn.cfg, TC, { run_one::<TC>(&scn, &mut st, l, "random") });
+            } else {
+                let mut st = PctStrategy::new(rng.next_u64(), 4, 80);
+                with_cfg!(scn.cfg, TC, { run_one::<TC>(&scn, &mut st, l, "pct") });
+            }
+            l.count("cold_reader_schedules", 1);
+        }
+    });
     // ---- lag: a reader instance answers after storage moved on without it being told
     let n_lag = ctx.tier.pick(48, 400);
     par_cases(ctx, &mon, "lag", n_lag, |cc, rng, l| {
@@ -353,8 +390,10 @@ fn run_one<TC: Configuration>(scn: &Scn, strategy: &mut dyn Strategy, l: &mut Lo
         let ro_cached_mgr = CacheOpt::Default.manager(ro_db.clone());
         let ro_cached = RoDir::<TC>::new(ro_cached_mgr.clone(), w.vrf.clone(), AzksParallelismConfig::disabled()).await.map_err(|e| e.to_string())?;
         // prime the cached reader the way a serving instance would be
-        let _ = ro_cached.get_epoch_hash().await;
-        let _ = ro_cached.lookup(AkdLabel(b"x".to_vec())).await;
+        if scn.prime {
+            let _ = ro_cached.get_epoch_hash().await;
+            let _ = ro_cached.lookup(AkdLabel(b"x".to_vec())).await;
+        }
         let ro_uncached = RoDir::<TC>::new(CacheOpt::None.manager(db.clone()), w.vrf.clone(), AzksParallelismConfig::disabled()).await.map_err(|e| e.to_string())?;
         let recs: Arc<Mutex<Vec<ReaderRec>>> = Arc::new(Mutex::new(vec![]));
         let writer_results: Arc<Mutex<Vec<Result<EpochHash, String>>>> = Arc::new(Mutex::new(vec![]));
